@@ -1273,6 +1273,83 @@ def gen_initpop(tree, out, report):
     attempt("calculate_initial_population", t_calc)
 
 
+
+# ------------------------------------------------------------------------------------------------ population rebalancing
+PSRC = "summer2/population.py"
+
+
+def gen_rebalance(tree, out, report):
+    """`population.py`: `get_unique_strat_groups`, `filter_by_strata`, `get_rebalanced_population` — recognised statement by statement against
+    the expected source text (object attributes, dict / frozenset manipulation and NumPy index arrays are outside the generic array subset)
+    and emitted in a fixed shape; any other text is refused.  The three assertions of `get_rebalanced_population` (the stratification exists,
+    every stratum has a proportion, the proportions sum to one) are part of the recognised text; the emitted definition is the value computed
+    when they pass."""
+    want = {
+        "get_unique_strat_groups": [
+            "unique_strat_groups = {}",
+            "for c in comps:\n    cur_strata = c.strata.copy()\n    cur_strata.pop(strat)\n    unique_strat_groups[CompartmentGroup(c.name, frozenset(cur_strata.items()))] = None",
+            "return list(unique_strat_groups)"],
+        "filter_by_strata": [
+            "_strata = frozenset(strata.items())",
+            "return [c for c in comps if c._has_strata(_strata)]"],
+        "get_rebalanced_population": [
+            "msg = f'No stratification {strat} found in model'",
+            "assert strat in [s.name for s in model._stratifications], msg",
+            "model_strat = [s for s in model._stratifications if s.name == strat][0]",
+            "proportions = get_static_param_value(proportions, static_graph_values)",
+            "msg = 'All strata must be specified in proportions'",
+            "assert set(model_strat.strata) == set(proportions), msg",
+            "msg = 'Proportions must sum to 1.0'",
+            "np.testing.assert_allclose(sum(proportions.values()), 1.0, err_msg=msg)",
+            "strat_comps = [c for c in model.compartments if strat in c.strata]",
+            "strat_comps = filter_by_strata(strat_comps, dest_filter)",
+            "usg = get_unique_strat_groups(strat_comps, strat)",
+            "out_population = population.copy()",
+            "for g in usg:\n    mcomps = model._get_matching_compartments(g.name, g.strata)\n    idx = np.array([c.idx for c in mcomps])\n    total = population[idx].sum()\n"
+            "    for c in mcomps:\n        k = c.strata[strat]\n        target_prop = proportions[k]\n        out_population = out_population.at[c.idx].set(total * target_prop)",
+            "return out_population"],
+    }
+    try:
+        for fname, wanted in want.items():
+            fn = top_func(tree, fname)
+            body = [ast.unparse(st) for st in fn.body if not (isinstance(st, ast.Expr) and isinstance(st.value, ast.Constant))]
+            if body != wanted:
+                k = next((i for i, (a, b_) in enumerate(zip(body, wanted)) if a != b_), min(len(body), len(wanted)))
+                raise Untranslatable(f"{fname}: statement {k} is not the expected text: " + (body[k][:120] if k < len(body) else "<missing>"))
+        if arg_names(top_func(tree, "get_rebalanced_population")) != ["model", "population", "static_graph_values", "strat", "dest_filter", "proportions"]:
+            raise Untranslatable("signature of get_rebalanced_population")
+        out.append(
+            "/-- `population.py::filter_by_strata` -/\n"
+            "def filter_by_strata (comps : List Comp) (strata : Strata) : List Comp := comps.filter (fun c => c.hasStrata strata)\n\n"
+            "/-- `population.py::get_unique_strat_groups`: (name, strata without `strat`) of every compartment, first occurrences in order "
+            "(a dict used as an insertion-ordered set; two groups are the same when the names are equal and the frozensets of items are) -/\n"
+            "def get_unique_strat_groups (comps : List Comp) (strat : String) : List (String × Strata) :=\n"
+            "  comps.foldl (fun unique_strat_groups c =>\n"
+            "    let cur_strata := c.strata.filter (fun kv => kv.1 != strat)\n"
+            "    let g := (c.name, cur_strata)\n"
+            "    if unique_strat_groups.any (fun h => h.1 == g.1 && strataContains h.2 g.2 && strataContains g.2 h.2) then unique_strat_groups\n"
+            "    else unique_strat_groups ++ [g]) []\n\n"
+            "/-- `population.py::get_rebalanced_population` (the value computed when its three assertions pass); `proportions` is the evaluated dict, "
+            "`model._get_matching_compartments(name, frozenset)` selects by name and `_has_strata` in model order, `c.idx` is the position in `model.compartments` -/\n"
+            "def get_rebalanced_population (compartments : List Comp) (population : List α) (strat : String) (dest_filter : Strata)\n"
+            "    (proportions : List (String × α)) : List α :=\n"
+            "  let strat_comps := compartments.filter (fun c => c.strata.any (fun kv => kv.1 == strat))\n"
+            "  let strat_comps := filter_by_strata strat_comps dest_filter\n"
+            "  let usg := get_unique_strat_groups strat_comps strat\n"
+            "  let out_population := population\n"
+            "  usg.foldl (fun out_population g =>\n"
+            "    let mcomps := compartments.zipIdx.filter (fun ci => ci.1.name == g.1 && ci.1.hasStrata g.2)\n"
+            "    let total := sumL (mcomps.map (fun ci => population.getD ci.2 0))\n"
+            "    mcomps.foldl (fun out_population ci =>\n"
+            "      match alookup ci.1.strata strat with\n"
+            "      | some k => out_population.set ci.2 (total * (alookup proportions k).getD 0)\n"
+            "      | none => out_population) out_population) out_population\n")
+        report["get_rebalanced_population"] = "ok"
+    except Untranslatable as e:
+        report["get_rebalanced_population"] = "untranslatable: " + str(e)
+    except Exception as e:
+        report["get_rebalanced_population"] = "untranslatable: internal " + type(e).__name__ + ": " + str(e)
+
 IHEADER = """-- GENERATED by harness/translate/gen_rates.py from /repo (summer2/runner/jax/stratify.py). Do not edit.
 import Summer.Model.JaxPrelude
 import Summer.Model.Run
@@ -1430,6 +1507,9 @@ def main():
         with open(os.path.join(REPO, ISRC)) as f:
             itree = ast.parse(f.read())
         gen_initpop(itree, iout, report)
+        with open(os.path.join(REPO, PSRC)) as f:
+            ptree = ast.parse(f.read())
+        gen_rebalance(ptree, iout, report)
     except Exception as e:
         report["stratify.py"] = "untranslatable: " + type(e).__name__ + ": " + str(e)
     iout.append("end\nend Summer.Generated.InitPop\n")
